@@ -8,6 +8,8 @@ TB_COMMON = [
     "Rust harness /verif/harness (drivers, catch_unwind, panic-message -> site mapping), built against /repo's working tree with --cfg tikv_raft_rs_verif",
 ]
 
+NOT_YET = {}
+
 SPECS = {
     "C18": {
         "id": "C18", "kind": "component", "component": "inflights",
@@ -24,6 +26,35 @@ SPECS = {
         "explanation": "Theorems (all capacities, all histories, unbounded): Props/C18.v. Tie: lockstep differential of M/Inflights.v (extracted) against raft::Inflights on every run, plus a vm_compute re-evaluation of a sample inside Coq.",
         "trusted_base": TB_COMMON + ["Inflights private fields read from its derived Debug output; buffer_is_allocated()/full()/count() public accessors",
                                      "modelled not verified: src/tracker/inflights.rs (all of it). Vec capacity modelled as a boolean (allocated)"],
+        "manifest": {
+            "technique": "machine-checked proof in Coq (refinement of a bounded-FIFO spec, induction over histories) + model/implementation correspondence by differential execution",
+            "text": "Props/C18.v: for every capacity and every operation history (unbounded) the Inflights model never panics (add only when not full), keeps its representation invariant and refines a bounded FIFO with deferred shrink: count/full match, free_to removes exactly the longest prefix <= to, resizing/releasing loses or reorders nothing, a reduced capacity governs fullness at once and is installed when the window drains. The model is tied to src/tracker/inflights.rs on every run by an exhaustive small-scope + random lockstep differential over the full private state, panics included.",
+            "design_ref": "DESIGN.md section 7, C18",
+            "note": "Trusted: Coq kernel; hand-written model validated against the code by differential execution (not a translation); extraction (ExtrOcamlBasic) + OCaml driver cross-checked by vm_compute; Rust harness; debug-build semantics. No axioms.",
+        },
         "assumptions": ["debug-build semantics (debug_assert! active)", "add is only called on a non-full window (documented precondition); the panic when full is modelled and compared"],
+    },
+    "C11": {
+        "id": "C11", "kind": "component", "component": "quorum",
+        "run_module": "Run.RunQuorum", "runfun": "run_quorum",
+        "gens": [
+            {"prefix": "quorum-exh", "args": {"quick": ["--mode", "exhaustive", "--depth", "3"],
+                                               "thorough": ["--mode", "exhaustive", "--depth", "4"]}},
+            {"prefix": "quorum-rnd", "args": {"quick": ["--mode", "random", "--count", "60000"],
+                                               "thorough": ["--mode", "random", "--count", "600000"]}},
+        ],
+        "incoq": {"quick": 150, "thorough": 600},
+        "nontrivial_tokens": 8,
+        "rule": "cases = (exhaustive) every incoming/outgoing voter subset of {1..4} with every overlap and empty halves, acked indexes 0..3, groups 0..2, missing acks, vote maps over {yes,no,missing}, up to the tier's depth; (random) 0-9 ids per half (the >7-voter heap path), indexes incl. 0, u64::MAX, ties, groups 0..3; each case evaluates MajorityConfig / JointConfig / ProgressTracker commit index (group commit off and on), vote_result, tally_votes, has_quorum on the real types in the implementation's own hash iteration order and compares with the model; non-trivial = at least one voter; distinct = distinct case lines",
+        "explanation": "Theorems for voter lists of any size: Props/C11.v (46 statements: exact commit index for simple and joint configs, permutation invariance, vote results, quorum intersection, group commit characterisation). Tie: lockstep differential of M/Quorum.v against raft::{MajorityConfig, JointConfig, ProgressTracker} on every run + vm_compute sample.",
+        "trusted_base": TB_COMMON + ["hash iteration order is passed from the implementation (raw_slice / to_conf_state) to the model as the voter list order; theorems hold for every order",
+                                     "modelled not verified: src/quorum/majority.rs, src/quorum/joint.rs, util::majority, ProgressTracker::{maximal_committed_index,tally_votes,vote_result,has_quorum,record_vote}; the MaybeUninit stack array of committed_index is memory-level and outside the model"],
+        "manifest": {
+            "technique": "machine-checked proof in Coq (counting/pigeonhole over lists, stable-sort lemmas, permutation invariance) + model/implementation correspondence by differential execution",
+            "text": "Props/C11.v (46 pinned theorems, voter sets of any size): the computed commit index is exactly the largest index acknowledged by a majority of each non-empty half (simple and joint), invariant under the hash iteration order; vote results are won/lost/pending exactly by the majority counts, joint = both/either; two deciding quorums intersect (also vote-quorum vs commit-witness); group commit never exceeds the plain index and is fully characterised (all-grouped: largest plain-bounded index spanning two groups). The model M/Quorum.v is tied to src/quorum/*.rs and the ProgressTracker tallies on every run by exhaustive small-scope + random differential in the implementation's own iteration order.",
+            "design_ref": "DESIGN.md section 7, C11",
+            "note": "Trusted: Coq kernel; hand-written model validated by differential execution; extraction + OCaml driver cross-checked by vm_compute; Rust harness. The MaybeUninit stack array in committed_index is memory-level and not modelled. No axioms.",
+        },
+        "assumptions": ["u64 indexes (<= 2^64-1) for the joint 'largest' statement"],
     },
 }
